@@ -107,8 +107,8 @@ def tasks_for(tier):
     ]
     if not q:
         T += [
-            (dict(levy='space-time', size=(1,), cache_size=1), 1, 2, False, mp, to),
-            (dict(levy='davie', size=(1, 2), cache_size=1), 1, 1, True, mp, to),
+            (dict(levy='space-time', size=(1,), cache_size=1), 0, 2, False, mp, to),
+            (dict(levy='davie', size=(1, 2), cache_size=1), 0, 1, True, mp, to),
             (dict(levy='none', size=(1,), cache_size=2), 0, 2, True, mp, to),
             (dict(levy='foster', size=(2, 2), cache_size=2), 0, 2, False, mp, to),
             (dict(levy='space-time', size=(1,), cache_size=2, tol=0.1, halfway=True, t1=Fraction(1, 2)), 1, 1, False, mp, to),
